@@ -976,11 +976,13 @@ def run_accept_implies_lower(P, R, mp, log_dir):
     if rc.get("status") == "held" and rl.get("status") == "held":
         r.update(status="held", vacuity_ok=True, solver="both rule bodies follow the documented rule on every path: they agree")
         return r
-    if "inconclusive" in (rc.get("status"), rl.get("status")):
+    unconfirmed = [x for x in (rc, rl) if x.get("status") == "inconclusive" and "deviates" in str(x.get("reason"))]
+    if any(x.get("status") == "inconclusive" for x in (rc, rl)) and len(unconfirmed) < sum(1 for x in (rc, rl) if x.get("status") == "inconclusive"):
         r.update(status="inconclusive", reason=f"checker: {rc.get('status')} ({str(rc.get('reason'))[:120]}); lowering: {rl.get('status')} ({str(rl.get('reason'))[:120]})")
         return r
+    # (a rule body that deviates at the solver level but whose OWN replay programs do not show it still goes through the accepted => generated programs below)
     r["vacuity_ok"] = True
-    r["deviating_path"] = str(rc.get("deviating_path") or rc.get("finding") or rl.get("deviating_path") or "")[:400]
+    r["deviating_path"] = str(rl.get("reason") if unconfirmed and rl in unconfirmed else (rc.get("deviating_path") or rc.get("finding") or rl.get("deviating_path") or ""))[:400]
     # native: accepted by the checker => generated
     import kani
     texts, broken = [], False
